@@ -311,6 +311,35 @@ def run(p, report, tier):
                        f"not the one trained on the stored (sample, label, weight) triples")
     if nref == 0:
         raise AnalysisError("IndexClassifierWrapper.partial_fit: emulated refit self.fit(self.idx_, ...) vanished")
+    # ---- R19.12 weights reach the model
+    report.rule("R19.12", "the weight part of the training triples is not lost on its way: every fit / partial_fit of a "
+                "classifier class that accepts `sample_weight` reads it (hands it on), and the shared vote counter copies "
+                "the weights before it zeroes entries (a weight vector the caller re-uses after revealing labels must not "
+                "have been zeroed at the formerly unlabeled samples)", floor=8)
+    for ci_ in sorted((c for c in p.classes.values() if "/tests/" not in c.file and c.file.startswith("skactiveml/classifier/")),
+                      key=lambda c: c.name):
+        for mn in ("fit", "partial_fit"):
+            fm = ci_.methods.get(mn)
+            if fm is None or c13_is_abstract(fm) or "sample_weight" not in fm.all_param_names():
+                continue
+            used = any(isinstance(x, ast.Name) and x.id == "sample_weight" and isinstance(x.ctx, ast.Load)
+                       for b in fm.node.body for x in ast.walk(b))
+            report.add("R19.12", fm.qual, "`sample_weight` is handed on", f"{fm.file}:{fm.node.lineno}", used,
+                       detail="read in the body" if used else
+                       "the method accepts sample_weight and never reads it: the batch is stored / fitted without its weights")
+    cvv = p.get_func("skactiveml.utils._aggregation", "compute_vote_vectors")
+    if cvv is None:
+        raise AnalysisError("compute_vote_vectors vanished")
+    wpar = [a for a in cvv.params() if a == "w"]
+    for c in ast.walk(cvv.node):
+        if isinstance(c, ast.Call) and c01.callname(c) == "check_array" and c.args and isinstance(c.args[0], ast.Name) \
+                and wpar and c.args[0].id == wpar[0]:
+            cp = next((k.value for k in c.keywords if k.arg == "copy"), None)
+            okc = isinstance(cp, ast.Constant) and cp.value is True
+            report.add("R19.12", cvv.qual, f"`{site_id(c, 50)}` works on a private copy of the weights", f"{cvv.file}:{c.lineno}", okc,
+                       detail="copy=True" if okc else
+                       "check_array returns the caller's float array itself: the in-place zeroing at unlabeled entries destroys "
+                       "the weights the caller (and IndexClassifierWrapper.sample_weight_) still holds")
     # ---- R19.10 premise shared with C13: the classifier behind the wrapper refits history-free
     report.rule("R19.10", "an emulated partial_fit equals a fresh fit only if the wrapped classifier's fit is a function "
                 "of its arguments: for the classifier classes of the package, fit writes no constructor parameter "
